@@ -18,6 +18,28 @@
 From Common Require Import Prelude.
 Open Scope Z_scope.
 
+(* keyword arguments carrying data: sorted association lists (canonical form of a dict) *)
+Definition kwargs := list (Z * Z).        (* sorted association list: canonical form of a dict *)
+
+Fixpoint kw_set (k v : Z) (kw : kwargs) : kwargs :=
+  match kw with
+  | [] => [(k, v)]
+  | (k', v') :: kw' => if k =? k' then (k, v) :: kw'
+                       else if k <? k' then (k, v) :: kw
+                       else (k', v') :: kw_set k v kw'
+  end.
+
+Fixpoint kw_get (k : Z) (kw : kwargs) : option Z :=
+  match kw with
+  | [] => None
+  | (k', v') :: kw' => if k =? k' then Some v' else kw_get k kw'
+  end.
+
+Definition kw_update (kw : kwargs) (d : list (Z * Z)) : kwargs :=
+  fold_left (fun acc kv => kw_set (fst kv) (snd kv) acc) d kw.
+
+Definition kw_norm (kw : list (Z * Z)) : kwargs := kw_update [] kw.
+
 (* ------------------------------------------------------------------------------------------- *)
 (* Part 1: queue events                                                                          *)
 
@@ -26,26 +48,30 @@ Inductive action :=
 | AClearOwn                     (* queue.clear() on it *)
 | AClearNth (k : nat)           (* release the (k mod n)-th outstanding wait / coroutine future *)
 | AClearQ (q : nat)             (* release the held wait on queue object q (if held) *)
-| APostQ (ev : Z) (share : bool)(* post_queue(ev, callback[, queue=own queue]) *)
+| APostQ (ev : Z) (share : bool) (kw : list (Z * Z))   (* post_queue(ev, callback[, queue=own queue], **kw) *)
 | APostP (ev : Z)               (* post(ev) *)
 | ARemove (h : Z).              (* remove_handler_by_key *)
 
 Inductive body := HSync (acts : list action) | HAsync (aw : bool).
-Record handler := mkH { h_id : Z; h_prio : Z; h_body : body }.
+(* h_kw / h_kwq: keyword arguments given at registration (data, and a `queue` object allocated before the run);
+   h_cond: condition "name{k==v}" evaluated on the merged kwargs (a missing key makes it false) *)
+Record handler := mkH { h_id : Z; h_prio : Z; h_kw : list (Z * Z); h_kwq : option nat;
+                        h_cond : option (Z * Z); h_body : body }.
 
 Record qobj := mkQ { q_waiter : bool; q_event : option nat }.
 
 Inductive dstate := DNew | DReady (q : nat) | DSleep (q : nat) (e : nat) | DDone.
-Record disp := mkD { d_psn : nat; d_ev : Z; d_kwq : option nat;
+Record disp := mkD { d_psn : nat; d_ev : Z; d_kwq : option nat; d_kw : kwargs;
                      d_snap : list handler; d_rem : list handler; d_st : dstate }.
 
 Inductive ritem := RPeq | RDisp (d : nat) | RCoroStart (q : nat) (aw : bool) | RCoroWake (q : nat)
                  | RCoroDone (q : nat).
 Inductive oitem := OWait (q : nat) | OFut (q : nat).
-Record posted := mkP { p_psn : nat; p_ev : Z; p_queue : bool; p_kwq : option nat }.
+Record posted := mkP { p_psn : nat; p_ev : Z; p_queue : bool; p_kwq : option nat; p_kw : kwargs }.
 
 Inductive obs :=
 | LInvoke (psn : nat) (h : Z) (q : nat)
+| LArgs (kw : kwargs)                    (* data kwargs the handler just invoked was called with *)
 | LPlain (psn : nat) (h : Z)
 | LCallback (psn : nat)
 | LPostQ (psn : nat)
@@ -156,7 +182,7 @@ Fixpoint remove_first (x : oitem) (l : list oitem) : list oitem :=
 Definition held (q : nat) (s : state) : bool := existsb (oitem_eqb (OWait q)) (outst s).
 
 Definition set_st (d : disp) (st : dstate) : disp :=
-  mkD (d_psn d) (d_ev d) (d_kwq d) (d_snap d) (d_rem d) st.
+  mkD (d_psn d) (d_ev d) (d_kwq d) (d_kw d) (d_snap d) (d_rem d) st.
 
 (* asyncio.Event.set(): wake whoever sleeps on event e *)
 Fixpoint wake_ds (e : nat) (i : nat) (ds : list disp) : list disp * list ritem :=
@@ -201,8 +227,8 @@ Definition do_wait (q : nat) (hold : bool) (s : state) : state :=
   end.
 
 (* EventManager._post *)
-Definition post (ev : Z) (isq : bool) (kwq : option nat) (s : state) : state :=
-  let p := mkP (npsn s) ev isq kwq in
+Definition post (ev : Z) (isq : bool) (kwq : option nat) (kw : kwargs) (s : state) : state :=
+  let p := mkP (npsn s) ev isq kwq kw in
   let s1 := upd_npsn (if isq then add_log s (LPostQ (npsn s)) else s) (S (npsn s)) in
   if negb isq && negb (reg_has ev (reg s1)) then s1      (* fast path: no callback, no handler *)
   else
@@ -230,8 +256,8 @@ Definition exec_action (own : option nat) (a : action) (s : state) : state :=
                  end
   | AClearNth k => clear_nth k s
   | AClearQ q => if held q s then do_clear q (upd_outst s (remove_first (OWait q) (outst s))) else s
-  | APostQ ev share => post ev true (if share then own else None) s
-  | APostP ev => post ev false None s
+  | APostQ ev share kw => post ev true (if share then own else None) (kw_norm kw) s
+  | APostP ev => post ev false None [] s
   | ARemove h => upd_reg s (reg_remove h (reg s))
   end.
 
@@ -249,13 +275,27 @@ Definition async_adapter (q : nat) (aw : bool) (s : state) : state :=
 Definition set_disp (i : nat) (d : disp) (s : state) : state := upd_disps s (set_nth i d (disps s)).
 
 (* the body of the for loop of _run_handlers_sequential, from handler list [rem] on *)
+Definition cond_ok (c : option (Z * Z)) (kw : kwargs) : bool :=
+  match c with
+  | None => true
+  | Some (k, v) => match kw_get k kw with Some v' => v =? v' | None => false end
+  end.
+
+(* merged_kwargs = dict(list(kwargs.items()) + list(handler.kwargs.items())): the handler's registered kwargs win *)
+Definition merged_kw (d : disp) (h : handler) : kwargs := kw_update (d_kw d) (h_kw h).
+(* merged_kwargs.pop('queue'): the handler's registered queue, else the posted one, else a fresh QueuedEvent *)
+Definition merged_queue (d : disp) (h : handler) : option nat :=
+  match h_kwq h with Some q => Some q | None => d_kwq d end.
+
 Fixpoint run_hs (i : nat) (d : disp) (rem : list handler) (s : state) : state :=
   match rem with
-  | [] => add_log (set_disp i (mkD (d_psn d) (d_ev d) (d_kwq d) (d_snap d) [] DDone) s) (LCallback (d_psn d))
+  | [] => add_log (set_disp i (mkD (d_psn d) (d_ev d) (d_kwq d) (d_kw d) (d_snap d) [] DDone) s) (LCallback (d_psn d))
   | h :: rem' =>
-      let q := match d_kwq d with Some q => q | None => length (heap s) end in
-      let s1 := match d_kwq d with Some _ => s | None => upd_heap s (heap s ++ [mkQ false None]) end in
-      let s2 := add_log s1 (LInvoke (d_psn d) (h_id h) q) in
+      if negb (cond_ok (h_cond h) (merged_kw d h)) then run_hs i d rem' s      (* condition false: skipped *)
+      else
+      let q := match merged_queue d h with Some q => q | None => length (heap s) end in
+      let s1 := match merged_queue d h with Some _ => s | None => upd_heap s (heap s ++ [mkQ false None]) end in
+      let s2 := add_log (add_log s1 (LInvoke (d_psn d) (h_id h) q)) (LArgs (merged_kw d h)) in
       let s3 := match h_body h with
                 | HSync acts => exec_actions (Some q) acts s2
                 | HAsync aw => async_adapter q aw s2
@@ -264,7 +304,7 @@ Fixpoint run_hs (i : nat) (d : disp) (rem : list handler) (s : state) : state :=
         (* queue.event = asyncio.Event(); await queue.event.wait() *)
         let e := nev s3 in
         let o := match nth_error (heap s3) q with Some o => o | None => mkQ true None end in
-        set_disp i (mkD (d_psn d) (d_ev d) (d_kwq d) (d_snap d) rem' (DSleep q e))
+        set_disp i (mkD (d_psn d) (d_ev d) (d_kwq d) (d_kw d) (d_snap d) rem' (DSleep q e))
                  (upd_nev (upd_heap s3 (set_nth q (mkQ (q_waiter o) (Some e)) (heap s3))) (S e))
       else run_hs i d rem' s3
   end.
@@ -279,7 +319,7 @@ Definition disp_step (lost : bool) (i : nat) (s : state) : state :=
           | None =>
               let s1 := set_disp i (set_st d DDone) s in
               if lost then s1 else add_log s1 (LCallback (d_psn d))
-          | Some hs => run_hs i (mkD (d_psn d) (d_ev d) (d_kwq d) hs hs DNew) hs s
+          | Some hs => run_hs i (mkD (d_psn d) (d_ev d) (d_kwq d) (d_kw d) hs hs DNew) hs s
           end
       | DReady _ => run_hs i d (d_rem d) s
       | _ => s
@@ -302,7 +342,7 @@ Fixpoint run_plain (psn : nat) (hs : list handler) (s : state) : state :=
 Definition process (p : posted) (s : state) : state :=
   if p_queue p then
     if reg_has (p_ev p) (reg s) then
-      push_ready (upd_disps s (disps s ++ [mkD (p_psn p) (p_ev p) (p_kwq p) [] [] DNew]))
+      push_ready (upd_disps s (disps s ++ [mkD (p_psn p) (p_ev p) (p_kwq p) (p_kw p) [] [] DNew]))
                  (RDisp (length (disps s)))
     else upd_cbq s (cbq s ++ [p_psn p])
   else
@@ -365,8 +405,12 @@ Fixpoint env_run (lost : bool) (fuel : nat) (bs : list (list action)) (s : state
 Definition init_reg (regs : list (Z * handler)) : list (Z * list handler) :=
   fold_left (fun r eh => reg_add (fst eh) (snd eh) r) regs [].
 
+(* QueuedEvent objects handed to add_handler(..., queue=Q) exist before the run: numbers 0 .. n-1 *)
+Definition prealloc (regs : list (Z * handler)) : nat :=
+  fold_right (fun eh n => match h_kwq (snd eh) with Some q => Nat.max (S q) n | None => n end) 0%nat regs.
+
 Definition init_state (regs : list (Z * handler)) : state :=
-  mkS (init_reg regs) [] [] [] false [] [] [] [] 0%nat 0%nat [] false.
+  mkS (init_reg regs) [] [] [] false [] (repeat (mkQ false None) (prealloc regs)) [] [] 0%nat 0%nat [] false.
 
 (* --- observation ------------------------------------------------------------------------------ *)
 Definition is_err (o : obs) : bool := match o with LErr _ => true | _ => false end.
@@ -400,6 +444,7 @@ Definition queue_run_orig (inp : list (Z * handler) * list (list action)) : outc
 Definition obs_eqb (a b : obs) : bool :=
   match a, b with
   | LInvoke p h q, LInvoke p' h' q' => Nat.eqb p p' && (h =? h') && Nat.eqb q q'
+  | LArgs a, LArgs b => list_eqb (fun x y => (fst x =? fst y) && (snd x =? snd y)) a b
   | LPlain p h, LPlain p' h' => Nat.eqb p p' && (h =? h')
   | LCallback p, LCallback p' => Nat.eqb p p'
   | LPostQ p, LPostQ p' => Nat.eqb p p'
@@ -418,29 +463,10 @@ Definition outcome_eqb (a b : outcome) : bool :=
    (mode.py: queue.wait() when use_wait_queue, then post_queue('mode_<name>_starting', **kwargs)).
    [forward = true] is the code before fixes/C02-mode-start-no-queue-forward.patch. *)
 Definition mode_start_script (use_wait_queue forward : bool) (starting_ev : Z) : list action :=
-  (if use_wait_queue then [AWait] else []) ++ [APostQ starting_ev forward].
+  (if use_wait_queue then [AWait] else []) ++ [APostQ starting_ev forward []].
 
 (* ------------------------------------------------------------------------------------------- *)
 (* Part 2: relay and boolean events (_run_handlers + _process_event)                              *)
-
-Definition kwargs := list (Z * Z).        (* sorted association list: canonical form of a dict *)
-
-Fixpoint kw_set (k v : Z) (kw : kwargs) : kwargs :=
-  match kw with
-  | [] => [(k, v)]
-  | (k', v') :: kw' => if k =? k' then (k, v) :: kw'
-                       else if k <? k' then (k, v) :: kw
-                       else (k', v') :: kw_set k v kw'
-  end.
-
-Fixpoint kw_get (k : Z) (kw : kwargs) : option Z :=
-  match kw with
-  | [] => None
-  | (k', v') :: kw' => if k =? k' then Some v' else kw_get k kw'
-  end.
-
-Definition kw_update (kw : kwargs) (d : list (Z * Z)) : kwargs :=
-  fold_left (fun acc kv => kw_set (fst kv) (snd kv) acc) d kw.
 
 Inductive result := RNone | RBool (b : bool) | RInt (z : Z) | RDict (d : list (Z * Z)).
 
@@ -509,8 +535,6 @@ Fixpoint insert_s (x : Z * Z * sbeh) (l : list (Z * Z * sbeh)) :=
   end.
 
 Definition sort_s (l : list (Z * Z * sbeh)) := fold_left (fun acc x => insert_s x acc) l [].
-
-Definition kw_norm (kw : list (Z * Z)) : kwargs := kw_update [] kw.
 
 Definition sync_run (inp : evtype * list (Z * Z * sbeh) * list (Z * Z)) : sync_out * evres :=
   let t := fst (fst inp) in
